@@ -42,6 +42,9 @@ PROBE = """\
 62-Sm,,,0.00(5),,,E,0.5(9),39.0(3.0),39.5(3.0),5922.0(56.0)
 80-Hg-196,0.125,0,30.25(1.0),,,E,115.0(8.0),0,,3080.0(180.0)
 44-Ru-96,5.5,0,,,,,,,,0.25(2)"""
+PROBE_BASE = PROBE          # (the typestate analyses of C09/C10 use these rows with their own mass/density probes)
+# an element with several isotope rows and no row of its own (Pu, Cm in the real table)
+PROBE += "\n94-Pu-239,24400 Y,1/2,7.75(1),,,,7.5(2),0.25(6),7.75(6),1017.5(2.0)\n94-Pu-240,6540 Y,0,3.5(1),,,,1.5(1),0,1.5(1),289.5(1.5)"
 PROBE_I = "1-H-1,-1.5,,-5.5\n71-Lu-176,-0.5(2),,\n54-Xe,-0.25,-0.125(1),"
 
 # column schema of nsftable as documented in the comment block above it
@@ -78,7 +81,9 @@ def run(ctx):
 
     def rec(sym, A=None):
         el = I.getattr(T, sym)
-        atom = el if A is None else I.heap[el.id]["_isotopes"][A]
+        atom = el if A is None else I.heap[el.id]["_isotopes"].get(A)
+        if atom is None:
+            return None, None           # the isotope was never created: its row was not installed
         n = I.heap[atom.id].get("neutron")
         return atom, n
 
@@ -147,6 +152,12 @@ def run(ctx):
               "an element with its own row keeps it (isotope rows do not replace it)", "H.neutron was replaced by an isotope record", site)
     Lu, nLu = rec("Lu")
     ctx.check(close(fr(I.heap[nLu.id]["b_c"]), Fraction("7.25")), "R3", "element row listed before its isotopes is kept (Lu)", "replaced", site)
+    Pu, nPu = rec("Pu")
+    _, nPu239 = rec("Pu", 239)
+    _, nPu240 = rec("Pu", 240)
+    ctx.check(nPu239 is not nPu240 and (nPu is nPu239 or nPu is None), "R3",
+              "an element with several isotope rows and no row of its own serves its first listed isotope's record (or none), never a later one",
+              "Pu.neutron is " + ("Pu-240's record" if nPu is nPu240 else "neither Pu-239's record nor missing"), site)
     He = I.getattr(T, "He")
     miss = I.getattr(He, "neutron")
     ctx.check("neutron" not in I.heap[He.id] and I.call(I.getattr(miss, "has_sld"), [], {}) is False, "R3",
